@@ -25,6 +25,11 @@ def sanitise(name):
     return v.strip("-_")
 
 
+class Items(list):
+    """the items of a dimension, with the dtype token it was declared with (i / s / n)"""
+    ty = None
+
+
 class Sys:
     def __init__(self):
         self.dims = {}      # handle -> (letter, name, [items])
@@ -41,8 +46,10 @@ class Sys:
 
     def feed(self, t):
         if t[0] == "dim":
-            _, l, name, _, its = t[2].split(":")
-            self.dims[t[1]] = (l, name, its.split(","))
+            _, l, name, ty, its = t[2].split(":")
+            items = Items(its.split(","))
+            items.ty = ty
+            self.dims[t[1]] = (l, name, items)
         elif t[0] == "dset":
             self.dsets[t[1]] = [self.dims[x] for x in t[2:]]
         elif t[0] == "sys_begin":
@@ -65,7 +72,7 @@ class Sys:
 
 
 def show_arr(dims, data):
-    ds = " ".join(f"D:{l}:{n}:{'i' if its and its[0][0] == 'i' else 's'}:{','.join(its)}" for l, n, its in dims)
+    ds = " ".join(f"D:{l}:{n}:{getattr(its, 'ty', None) or ('i' if its and its[0][0] == 'i' else 's')}:{','.join(its)}" for l, n, its in dims)
     shape = ",".join(str(len(d[2])) for d in dims) if dims else "-"
     labs = list(itertools.product(*[d[2] for d in dims]))
     return f"A [{ds}] {shape} | " + " ".join(str(data[l]) for l in labs)
@@ -97,6 +104,10 @@ def check_export(lines, obs):
         s.feed(t)
         scalar = any(not f[3] for f in s.flows)
         tag = "   # a flow or stock without dimensions" if scalar else ""
+        mixed = any(len({i[0] for i in d[2]}) > 1 for o in ([f[3] for f in s.flows] + [k[2] for k in s.stocks]) for d in o)
+        if t[0] == "x_csvback" and mixed and not scalar:
+            # CSV text carries no types: 1950 comes back as the text "1950" next to "pre-war"
+            tag = "   # CSV read-back of a dimension without dtype holding items of mixed type"
         if t[0] in ("x_dict", "x_pickle"):
             want = "ok " + expected_dict(s)
             if canon_nums(ob) != canon_nums(want):
